@@ -469,6 +469,99 @@ def beta_reduce(func):
     return _Beta.count - before
 
 
+def count_loops_to_while(func):
+    """`for i in itertools.count(a[, c]): if C: break; BODY`  ->  `i = a; while not C: BODY; i += c` (no `continue` in BODY, i not rebound
+    in BODY).  Returns the number of loops rewritten."""
+    count = 0
+
+    def visit(stmts):
+        nonlocal count
+        for j, st in enumerate(list(stmts)):
+            for fld in ('body', 'orelse', 'finalbody'):
+                sub = getattr(st, fld, None)
+                if isinstance(sub, list) and not isinstance(st, (ast.FunctionDef, ast.AsyncFunctionDef, ast.ClassDef)):
+                    visit(sub)
+            for h in getattr(st, 'handlers', []) or []:
+                visit(h.body)
+            if not (isinstance(st, ast.For) and isinstance(st.target, ast.Name) and not st.orelse and isinstance(st.iter, ast.Call)
+                    and src(st.iter.func) in ('itertools.count', 'count') and len(st.iter.args) <= 2 and not st.iter.keywords):
+                continue
+            first = st.body[0] if st.body else None
+            if not (isinstance(first, ast.If) and not first.orelse and len(first.body) == 1 and isinstance(first.body[0], ast.Break)):
+                continue
+            rest = st.body[1:]
+            i = st.target.id
+            if i in _stored_in(rest) or any(isinstance(x, (ast.Continue, ast.Break)) for x in _own_statements(rest)):
+                continue
+            start = st.iter.args[0] if st.iter.args else ast.Constant(value=0)
+            step = st.iter.args[1] if len(st.iter.args) == 2 else ast.Constant(value=1)
+            if not all(isinstance(x, ast.Constant) and isinstance(x.value, int) for x in (start, step)):
+                continue
+            init = ast.Assign(targets=[ast.Name(id=i, ctx=ast.Store())], value=start, type_comment=None)
+            inc = ast.AugAssign(target=ast.Name(id=i, ctx=ast.Store()), op=ast.Add(), value=step)
+            t = first.test
+            flip = {ast.Lt: ast.GtE, ast.GtE: ast.Lt, ast.Gt: ast.LtE, ast.LtE: ast.Gt}
+            if isinstance(t, ast.Compare) and len(t.ops) == 1 and type(t.ops[0]) in flip and any(
+                    (isinstance(x, ast.Call) and isinstance(x.func, ast.Name) and x.func.id == 'len') or
+                    (isinstance(x, ast.Constant) and isinstance(x.value, int)) for x in (t.left, t.comparators[0])):
+                # a length or an integer constant on one side: the comparison is over integers, its negation is the opposite order
+                nt = ast.copy_location(ast.Compare(left=t.left, ops=[flip[type(t.ops[0])]()], comparators=t.comparators), t)
+            else:
+                nt = negate(t)
+            loop = ast.While(test=nt, body=rest + [inc], orelse=[])
+            for n in (init, loop, inc):
+                ast.copy_location(n, st)
+            ast.fix_missing_locations(init)
+            ast.fix_missing_locations(loop)
+            k = stmts.index(st)
+            stmts[k:k + 1] = [init, loop]
+            count += 1
+    visit(func.body)
+    return count
+
+
+def unroll_literal_loops(func, limit=4):
+    """`for x in (A, B)` over a literal tuple/list of at most `limit` plain elements (names, attributes, constants), whose body neither
+    rebinds x nor leaves early  ->  the body once per element with x replaced.  Returns the number of loops unrolled."""
+    count = 0
+
+    def visit(stmts):
+        nonlocal count
+        j = 0
+        while j < len(stmts):
+            st = stmts[j]
+            for fld in ('body', 'orelse', 'finalbody'):
+                sub = getattr(st, fld, None)
+                if isinstance(sub, list) and not isinstance(st, (ast.FunctionDef, ast.AsyncFunctionDef, ast.ClassDef)):
+                    visit(sub)
+            for h in getattr(st, 'handlers', []) or []:
+                visit(h.body)
+            if isinstance(st, ast.For) and isinstance(st.target, ast.Name) and not st.orelse \
+                    and isinstance(st.iter, (ast.Tuple, ast.List)) and 1 <= len(st.iter.elts) <= limit \
+                    and all(isinstance(e, (ast.Name, ast.Attribute, ast.Constant)) and not any(isinstance(x, ast.Call) for x in ast.walk(e))
+                            for e in st.iter.elts):
+                x = st.target.id
+                own = list(_own_statements(st.body))
+                if x not in _stored_in(st.body) and not any(isinstance(o, (ast.Break, ast.Continue)) for o in own) \
+                        and not any(isinstance(o, (ast.FunctionDef, ast.Lambda, ast.ClassDef)) for b in st.body for o in ast.walk(b)):
+                    later = {n.id for s2 in stmts[j + 1:] for n in ast.walk(s2) if isinstance(n, ast.Name) and isinstance(n.ctx, ast.Load)}
+                    if x not in later:
+                        new = []
+                        for e in st.iter.elts:
+                            for b in st.body:
+                                nb = _Subst({x: e}, {}).visit(copy.deepcopy(b))
+                                new.append(nb)
+                        for nb in new:
+                            ast.fix_missing_locations(nb)
+                        stmts[j:j + 1] = new
+                        count += 1
+                        j += len(new)
+                        continue
+            j += 1
+    visit(func.body)
+    return count
+
+
 def dict_dispatch_to_chain(func):
     """`D = {k1: f1, ...}` (a local literal table of callables) used only as `D[key](args)` in statement position  ->
     `if key == k1: f1(args) elif ... else: raise KeyError(key)`.  Same calls under the same conditions; the chain is the form in which
@@ -1413,6 +1506,12 @@ class Inliner:
                 k = dict_dispatch_to_chain(fi.node)
                 if k:
                     self.report['dispatch_tables'][q] = k
+                k = count_loops_to_while(fi.node)
+                if k:
+                    self.report.setdefault('count_loops', {})[q] = k
+                k = unroll_literal_loops(fi.node)
+                if k:
+                    self.report.setdefault('unrolled_literal_loops', {})[q] = k
         self.report['inlined_constants'] = inline_new_constants(prog, known_constants())
         if self.report['inlined_constants']:
             prog.reindex()
